@@ -54,7 +54,12 @@ def main():
             for f in demos:
                 try: os.remove(os.path.join(demo_dir, os.path.basename(f)))
                 except FileNotFoundError: pass
-        demo_cmd = goenv(meta["demo_cmd"])
+        import re
+        m = re.search(r"-run[ =]+'?\"?([^\s'\"]+)", meta["demo_cmd"])
+        pat = m.group(1) if m else "Demo"
+        extra = " -race" if " -race" in meta["demo_cmd"] else ""
+        demo_cmd = goenv("go test -count=1%s -timeout 600s -run '%s' ./%s/" % (extra, pat, meta.get("demo_pkg_dir", ".").strip("./")))
+        res["demo_cmd_used"] = demo_cmd
         place()
         rc, out = sh(demo_cmd, cwd=wt)
         res["demo_clean_rc"] = rc
